@@ -27,6 +27,9 @@ CONFIGS = {
 }
 
 
+REPO_DEFAULT = "/repo"
+
+
 class BuildError(Exception):
     pass
 
@@ -100,7 +103,10 @@ def export_facts(cfg, repo=None, verbose=False, extra_rustflags="", tag=""):
     ensure_driver(verbose)
     rh = repo_hash(repo)
     key = hashlib.sha256((rh + driver_hash() + cfg + extra_rustflags + os.path.abspath(repo)).encode()).hexdigest()[:16]
-    out = os.path.join(CACHE, "facts-%s%s-%s.json" % (cfg, tag, key))
+    # fact files are per analysed tree (rid): concurrent runs on scratch copies never delete each other's exports
+    scratch = os.path.abspath(repo) != os.path.abspath(REPO_DEFAULT)
+    rid = ("s" + hashlib.sha256(os.path.abspath(repo).encode()).hexdigest()[:8]) if scratch else "repo"
+    out = os.path.join(CACHE, "facts-%s%s-%s-%s.json" % (cfg, tag, rid, key))
     if os.path.exists(out) and os.path.getsize(out) > 1000:
         return out
     os.makedirs(CACHE, exist_ok=True)
@@ -110,14 +116,14 @@ def export_facts(cfg, repo=None, verbose=False, extra_rustflags="", tag=""):
             return out
         # drop stale fact files of this cfg
         for f in os.listdir(CACHE):
-            if f.startswith("facts-%s%s-" % (cfg, tag)) and f.endswith(".json"):
+            if f.startswith("facts-%s%s-%s-" % (cfg, tag, rid)) and f.endswith(".json"):
                 try:
                     os.remove(os.path.join(CACHE, f))
                 except OSError:
                     pass
         # scratch repos get their own target dir name so they never poison /repo's cache
         tname = "target-%s%s" % (cfg, tag)
-        if os.path.abspath(repo) != os.path.abspath(REPO_DEFAULT):
+        if scratch:
             tname += "-scratch"
         target = os.path.join(CACHE, tname)
         # defeat cargo's freshness cache for the analysed crate only
@@ -146,7 +152,16 @@ def export_facts(cfg, repo=None, verbose=False, extra_rustflags="", tag=""):
     return out
 
 
-REPO_DEFAULT = "/repo"
+def drop_scratch_facts(repo):
+    """remove the cached fact files of a scratch tree (called by the self-test tools when they delete the tree)"""
+    rid = "s" + hashlib.sha256(os.path.abspath(repo).encode()).hexdigest()[:8]
+    if os.path.isdir(CACHE):
+        for f in os.listdir(CACHE):
+            if f.startswith("facts-") and ("-%s-" % rid) in f:
+                try:
+                    os.remove(os.path.join(CACHE, f))
+                except OSError:
+                    pass
 
 
 if __name__ == "__main__":
